@@ -22,6 +22,7 @@ import sys
 import tempfile
 from concurrent.futures import ThreadPoolExecutor
 
+ALSO = []
 VERIF = os.path.dirname(os.path.dirname(os.path.abspath(__file__)))
 REPO = os.environ.get('PETL_VERIF_REPO', '/repo')
 PY = '/venv/bin/python'
@@ -163,6 +164,21 @@ def run_one(prop, cand, keep_dir=None):
         res['check_exit'] = c.returncode
         res['first_violation'] = first
         res['status'] = {0: 'SURVIVED-THE-CHECK', 1: 'caught-by-check', 2: 'check-inconclusive'}.get(c.returncode, 'check-exit-%d' % c.returncode)
+        if c.returncode == 0 and ALSO:
+            # not this property's business, perhaps: do the catalogue-wide checks (or any other named ones) see it?
+            for other in ALSO:
+                if other == prop:
+                    continue
+                try:
+                    c2 = subprocess.run([os.path.join(VERIF, 'check'), other, 'quick'], cwd=VERIF, env=env2, capture_output=True, text=True, timeout=3600)
+                except subprocess.TimeoutExpired:
+                    continue
+                if c2.returncode == 1:
+                    m2 = re.search(r"'kind': '[^']*'", c2.stdout)
+                    res['status'] = 'caught-by-another-check'
+                    res['caught_by'] = other
+                    res['first_violation'] = m2.group(0) if m2 else ''
+                    break
         return res
     finally:
         shutil.rmtree(d, ignore_errors=True)
@@ -176,7 +192,10 @@ def main():
     ap.add_argument('--seed', type=int, default=0)
     ap.add_argument('--out', default=None)
     ap.add_argument('--list', action='store_true')
+    ap.add_argument('--also', default='C12,C03,C20,C01,C02,C13,C14,C09,C06')
     a = ap.parse_args()
+    global ALSO
+    ALSO = [x for x in a.also.split(',') if x]
     cands = candidates(a.prop)
     rnd = random.Random(int(hashlib.sha1(('%s-%d' % (a.prop, a.seed)).encode()).hexdigest()[:8], 16))
     rnd.shuffle(cands)
@@ -194,7 +213,7 @@ def main():
             results.append(r)
             fh.write(json.dumps(r) + '\n')
             fh.flush()
-            print('%-22s %s:%d %-18s %s' % (r['status'], r['file'], r['line'], r['operator'], r.get('first_violation', '')), flush=True)
+            print('%-24s %s:%d %-18s %s %s' % (r['status'], r['file'], r['line'], r['operator'], r.get('caught_by', ''), r.get('first_violation', '')), flush=True)
     from collections import Counter
     cnt = Counter(r['status'] for r in results)
     print('SUMMARY %s: %d candidate edits in the anchored functions, %d tried: %s' % (a.prop, len(cands), len(chosen), dict(cnt)))
